@@ -4,6 +4,7 @@ from .flow import FlowCx, callee_name, find_aggregates
 from . import common
 
 EXPLANATION = (
+    "(R10) an operator that flattens the chunks it pulls from its child does so on every path from the pull to a normal return. "
     "Decides structural necessary conditions: (R1) every LpgStore function that changes node property values also "
     "maintains the property indexes; (R2) the plan cache stores logical plans only, keyed by query text and the "
     "language of the translator that produced them, and physical planning with the session context happens on every "
@@ -21,6 +22,7 @@ VALUE_OPS = {"set", "remove", "remove_all"}
 
 def run(ctx):
     P = ctx.program()
+    pulled_chunks_are_flattened(ctx, P, "R10")
     E = ctx.effects()
     # ---- R1 index maintenance
     n = 0
@@ -273,3 +275,40 @@ def variant_pairs(P, fn):
         if a and c:
             out.add((a[0], c[0]))
     return out
+
+
+def pulled_chunks_are_flattened(ctx, P, rule):
+    """A filter hands on chunks whose selection vector hides rows; the column data underneath is unchanged. The operators
+    that read columns by physical position (expand, variable-length expand, the factorized chain) therefore flatten every
+    chunk they pull from their child. That must hold on every path from a successful pull to a normal return - also on
+    the path that collects several batches and merges them - or the operator reads the first k physical rows instead of the
+    k selected ones whenever the start filter's result spans more than one batch."""
+    from .facts import must_pass
+    from .c12_k8 import error_blocks
+    n = 0
+    for f in sorted(P.fns.values(), key=lambda f: f.id):
+        if "::tests::" in f.id or f.kind == "closure" or not f.id.startswith("grafeo_core::execution::operators::"):
+            continue
+        fl = {bi for bi, t in f.calls() if callee_name(t).endswith("DataChunk::flatten")}
+        pulls = [(bi, t) for bi, t in f.calls() if (t.get("f") or "").endswith("operators::Operator::next")]
+        if not fl or not pulls:
+            continue
+        fx = FlowCx(P, f)
+        for bi, t in pulls:
+            # blocks entered with a chunk in hand: the Some arm of the pull's result
+            some = [b for b in range(len(f.blocks)) if not f.blocks[b]["cl"] and
+                    any(x[0] == "variant" and x[1] == "core::option::Option" and x[2] == "Some" and "operators::Operator::next" in str(x[3]) or
+                        (x[0] == "variant" and x[1] == "core::option::Option" and x[2] == "Some" and "call:Operator::next" in str(x[3]))
+                        for x in fx.facts_at(b))]
+            entries = [b for b in some if any(p not in some for p in f.pred()[b])]
+            if not entries:
+                continue
+            n += 1
+            goals = set(f.exits())
+            errs = error_blocks(f)
+            ok = all(must_pass(f, b, fl | errs, goals) for b in entries)
+            ctx.ob(rule, "%s#flattens-what-it-pulls" % short_id(f.id), ok,
+                   what="%s can use a chunk it pulled from its child without flattening it (a path from the successful pull to the return "
+                        "avoids DataChunk::flatten): the selection vector a filter left on the chunk is ignored and rows are read by "
+                        "physical position" % short_id(f.id), where=f.loc(t["line"]))
+    ctx.floor(rule, n, 3, "operators that flatten the chunks they pull")
